@@ -551,6 +551,12 @@ def gen_chain_cases(rng, tier, n_cases):
 
 def gen_make_cases(rng, tier, n):
     cases = []
+    # directed: the open findings of the direct DOK constructors (0-d input; a stored -0.0), every API path
+    for via in (0, 1, 2):
+        cases.append({"k": "dense", "dtype": "float64", "shape": [3], "flat": [0.0, -0.0, 2.0], "fill": 0.0,
+                      "fmt": {"fmt": "dok", "via": via, "direct": True}})
+        cases.append({"k": "dense", "dtype": "int64", "shape": [], "flat": [5], "fill": 0,
+                      "fmt": {"fmt": "dok", "via": via, "direct": True}})
     for i in range(n):
         dtype = rng.choice(["int64", "float64"])
         info = DTYPES[dtype]
@@ -628,7 +634,7 @@ def gen_make_cases(rng, tier, n):
                 f["direct"] = True       # DOK.from_numpy / asarray(format="dok") / DOK(ndarray)
             cases.append({"k": "dense", "dtype": dtype, "shape": sh, "flat": flat, "fill": fill, "fmt": f})
     # scipy.sparse input
-    for i in range(n // 3):
+    for i in range(n // 2):
         r, c = rng.choice([0, 1, 2, 3, 4]), rng.choice([0, 1, 2, 3, 4])
         dtype = rng.choice(["int64", "float64"])
         vals = DTYPES[dtype]["values"]
@@ -641,7 +647,7 @@ def gen_make_cases(rng, tier, n):
                           "data": [rng.choice(vals) for _ in range(k)], "fmt": {"fmt": t}, "via": rng.randint(0, 2)})
         else:
             axis = rng.randint(0, 1)
-            canonical = rng.random() < 0.6
+            canonical = rng.random() < 0.4
             nrows, ncols = (r, c) if axis == 0 else (c, r)
             indptr, indices = [0], []
             for _row in range(nrows):
@@ -652,10 +658,7 @@ def gen_make_cases(rng, tier, n):
                     cols = [rng.randrange(ncols) for _ in range(cnt)]
                 indices += cols
                 indptr.append(len(indices))
-            if t in ("gcxs", "csr", "csc") and not canonical:
-                # non-canonical input: only the pass-through combinations (no format change inside scipy)
-                t = rng.choice(["gcxs", "csr" if axis == 0 else "csc"])
-            cases.append({"k": "scipy_cs", "dtype": dtype, "axis": axis, "shape": [r, c], "indices": indices, "indptr": indptr,
+            cases.append({"k": "scipy_cs", "dtype": dtype, "axis": axis, "canonical": canonical, "shape": [r, c], "indices": indices, "indptr": indptr,
                           "data": [rng.choice(vals) for _ in indices], "fmt": {"fmt": t}, "via": rng.randint(0, 2)})
     return cases
 
@@ -873,12 +876,12 @@ def campaign(build, tier, seed, report, budget=1):
             lit = "MkScipyCoo %s %s %s %s %s" % (vlist(c["shape"]), vlist([[a, b] for a, b in zip(c["row"], c["col"], strict=True)], vlist),
                                                 vlist([tok(v) for v in c["data"]]), lit_fmt(scipy_equiv(c["fmt"], 0)), out)
         else:
-            tag("make/scipy_cs/" + c["fmt"]["fmt"])
-            lit = "MkScipyCs %s %s %s %s %s %s %s %s" % (vZ(c["axis"]), vlist(c["shape"]), vlist([tok(v) for v in c["data"]]), vlist(c["indices"]),
-                                                       vlist(c["indptr"]), vbool(c["fmt"]["fmt"] in ("gcxs", "csr", "csc")), lit_fmt(scipy_equiv(c["fmt"], c["axis"])), out)
+            tag("make/scipy_cs/" + c["fmt"]["fmt"] + ("" if c.get("canonical") else "/noncanonical"))
+            lit = "MkScipyCs %s %s %s %s %s %s %s" % (vZ(c["axis"]), vlist(c["shape"]), vlist([tok(v) for v in c["data"]]), vlist(c["indices"]),
+                                                       vlist(c["indptr"]), lit_fmt(scipy_equiv(c["fmt"], c["axis"])), out)
         mlits.append("(" + lit + ")")
     MK = {1: ("representation", None), 2: ("value", None), 3: ("value", None), 4: ("value", None),
-          5: ("value", "zero_dim_from_iter"), 6: ("value", None), 8: ("value", "scipy_noncanonical")}
+          5: ("value", "zero_dim_from_iter"), 6: ("value", None)}
     for i, code in build.judge("c05_make", IMPORTS, "mk_case", "judge_make", mlits, chunk=250):
         c, r = mc[i], mres[i]
         kind, clause = MK.get(code, ("value", None))
@@ -889,10 +892,16 @@ def campaign(build, tier, seed, report, budget=1):
                 clause = "dok_from_numpy_0d"
         what = {1: "representation differs from the model", 2: "an element, the shape or the fill differs from the Spec",
                 3: "result is not in canonical form", 4: "exception on a valid input", 5: "exception on a valid 0-d input (COO.from_iter rejects the key ())",
-                6: "malformed input accepted", 8: "non-canonical scipy matrix passed through unchanged: not canonical / elements differ"}.get(code)
+                6: "malformed input accepted"}.get(code)
         viol.append(dict(property="C05", op="construct:" + c["k"], kind=kind, clause=clause, code=code, what=what, case=c, impl=r,
                          replay_py=replay_line("impl_make", c)))
 
+    # element-wise read-back x[i, j] of everything built from a csr/csc matrix, against scipy's own meaning
+    for c, r in zip(mc, mres, strict=True):
+        if c["k"] == "scipy_cs" and r.get("getitem_mismatch"):
+            viol.append(dict(property="C05", op="construct:scipy_cs", kind="value", clause=None, code=9,
+                             what="x[i, j] differs from the scipy matrix at " + str(r["getitem_mismatch"]), case=c, impl=r,
+                             replay_py=replay_line("impl_make", c)))
     phase("construction")
     # ---- 3. conversion chains
     clits, cidx = [], []
